@@ -229,6 +229,44 @@ func c11Build(w *mon.W, p ref.Policy) (*c11Pol, bool) {
 
 type mres struct{ match, partial bool }
 
+type c11Poison struct {
+	pol  policy.Policy
+	data datamodel.Node
+}
+
+var c11PoisonCtr int
+
+// c11Poisons: == / ordering statements over containers whose comparison hits an unreadable
+// integer (2^64-1) or a NaN while other, unequal pairs are still to be compared.
+var c11Poisons = func() []c11Poison {
+	big := ref.Uint(math.MaxUint64)
+	cases := []struct{ lit, data ref.V }{
+		{ref.List(ref.Int(6), ref.Int(1)), ref.List(ref.Int(5), big)},
+		{ref.List(ref.Int(6), ref.Int(1), ref.Int(2)), ref.List(big, ref.Int(7), ref.Int(8))},
+		{ref.Map(ref.E("a", ref.Int(1)), ref.E("b", ref.List(ref.Int(2), ref.Int(3)))), ref.Map(ref.E("a", big), ref.E("b", ref.List(ref.Int(9), ref.Int(9))))},
+		{ref.List(ref.List(ref.Int(1), ref.Int(2)), ref.Int(3)), ref.List(ref.List(big, ref.Int(0)), ref.Int(4))},
+		{ref.Int(5), big},
+		{ref.List(ref.Float(1), ref.Float(2)), ref.List(ref.Float(math.NaN()), ref.Float(3))},
+		{ref.Str("x"), ref.List(big)},
+	}
+	var out []c11Poison
+	for _, c := range cases {
+		for _, kind := range []string{"==", "<", ">="} {
+			st := ref.Stmt{Kind: kind, Sel: ref.Sel{{Kind: ref.SField, Name: "v"}}, Val: c.lit}
+			for _, wrap := range []bool{false, true} {
+				s2 := st
+				if wrap {
+					s2 = ref.Stmt{Kind: "not", Subs: []ref.Stmt{st}}
+				}
+				if pol, err := gen.BuildPolicy(ref.Policy{s2}); err == nil {
+					out = append(out, c11Poison{pol, ref.Map(ref.E("v", c.data)).Node()})
+				}
+			}
+		}
+	}
+	return out
+}()
+
 // c11Match matches through one of the two forms (alternating), guarding against panics
 // (which C09 judges).
 func c11Match(w *mon.W, p *c11Pol, n datamodel.Node, via int) (mres, bool) {
@@ -239,6 +277,14 @@ func c11Match(w *mon.W, p *c11Pol, n datamodel.Node, via int) (mres, bool) {
 		w.Cover("via/ipld")
 	} else {
 		w.Cover("via/constructors")
+	}
+	// every third judged match is preceded by a hostile one (lists holding integers above
+	// MaxInt64 next to unequal elements, NaN, kind clashes - comparisons that fail or panic
+	// inside the library and are recovered there): what it leaves behind must not matter
+	if c11PoisonCtr++; c11PoisonCtr%3 == 0 {
+		pp := c11Poisons[(c11PoisonCtr/3)%len(c11Poisons)]
+		mon.Guard(func() { _, _ = pp.pol.Match(pp.data); _, _ = pp.pol.PartialMatch(pp.data) })
+		w.Cover("after-hostile-match")
 	}
 	pi := mon.Guard(func() {
 		out.match, _ = pol.Match(n)
